@@ -86,6 +86,16 @@ class Module:
                             self.assigns[nm] = st.value
                             self.all_assigns.setdefault(nm, []).append(
                                 st.value)
+                    if isinstance(t, (ast.Tuple, ast.List)) and isinstance(
+                            st.value, (ast.Tuple, ast.List)) and len(
+                                t.elts) == len(st.value.elts):
+                        # A, B = 'a', 'b'
+                        for x, v in zip(t.elts, st.value.elts):
+                            if isinstance(x, ast.Name) and not isinstance(
+                                    v, ast.Starred):
+                                self.assigns[x.id] = v
+                                self.all_assigns.setdefault(
+                                    x.id, []).append(v)
                     if (isinstance(t, ast.Name) and t.id == '__all__' and
                             isinstance(st.value, (ast.List, ast.Tuple))):
                         self.dunder_all = [
